@@ -9,7 +9,7 @@ import Stackage.Driver.Traverse
 open Stackage.Driver
 
 def dispatch (stream payload : String) : String × String × String :=
-  if ["hist", "histx", "capx", "nest", "pol", "xfer"].contains stream then runHist payload
+  if ["hist", "histx", "capx", "nest", "pol", "xfer", "awk"].contains stream then runHist payload
   else if stream == "render" then runRender payload
   else if stream == "strunit" then runStrUnit payload
   else if stream == "condhist" then runCondHist payload
